@@ -144,10 +144,14 @@ def run(ctx):
     later_w, _, _ = role_effects(sym, mod, 'Sandbox', ex.body)
     shared = sorted(set(s_writes) & (set(g_writes) | set(later_w)))
     ctx.floor('R2', 'attributes written by the student role', len(s_writes), 3)
+    # the two stacks keep their identity (and the identity of a recorded finding) under a rename of the attribute
+    from .c05 import stack_roles
+    roles_ = stack_roles(ctx, sym, mod)
+    canonical = {roles_['patches']: '_current_patches', roles_['stdout']: '_current_stdout'}
     for attr in shared:
         node = s_writes[attr]
         ok = is_fenced or locked(node)
-        ctx.check(ok, 'R2', 'race:Sandbox.%s' % attr, mod, node,
+        ctx.check(ok, 'R2', 'race:Sandbox.%s' % canonical.get(attr, attr), mod, node,
                   "sandbox state `%s` is written by the abandoned student thread (via its SystemExit handler) and by "
                   "the grader thread / the next execution with no lock, join or abandonment fence between them" % attr,
                   "a busy loop that is terminated late: the student thread's handler runs after run() has returned "
